@@ -130,3 +130,46 @@ func verifLemma_C38_relation_merge(rid b6.RelationID, m0, m1 b6.RelationMember) 
 	caller.Members[0] = m1
 	verifrt.Assert(len(stored.Members) == 1 && stored.Members[0] == m0, "stored-members-unchanged-by-caller-edit")
 }
+
+// ---- C15: reference closure terminates on cyclic reference maps -------------------
+// Bounded: concrete shapes (self reference, 2-cycle, 3-cycle, diamond) over
+// concrete feature IDs; the real recursive findReferences must return (unwinding
+// assertion on the recursion depth) with exactly the referrers marked.
+
+func vRel(v uint64) b6.FeatureID {
+	return b6.FeatureID{Type: b6.FeatureTypeRelation, Namespace: "diagonal.works/verif", Value: v}
+}
+
+func verifLemma_C15_self_cycle() {
+	a := vRel(1)
+	f := FeatureReferencesByID{a: []b6.Reference{a}}
+	m := make(map[b6.Reference]bool)
+	f.findReferences(a, &m)
+	verifrt.Assert(m[b6.Reference(a)], "self-referrer-found")
+}
+
+func verifLemma_C15_cycle2() {
+	a, b, x := vRel(1), vRel(2), vRel(9)
+	f := FeatureReferencesByID{a: []b6.Reference{b}, b: []b6.Reference{a}}
+	m := make(map[b6.Reference]bool)
+	f.findReferences(a, &m)
+	verifrt.Assert(m[b6.Reference(b)] && m[b6.Reference(a)], "cycle-members-found")
+	verifrt.Assert(!m[b6.Reference(x)], "nothing-else-found")
+}
+
+func verifLemma_C15_cycle3() {
+	a, b, c := vRel(1), vRel(2), vRel(3)
+	f := FeatureReferencesByID{a: []b6.Reference{b}, b: []b6.Reference{c}, c: []b6.Reference{a}}
+	m := make(map[b6.Reference]bool)
+	f.findReferences(a, &m)
+	verifrt.Assert(m[b6.Reference(a)] && m[b6.Reference(b)] && m[b6.Reference(c)], "cycle-members-found")
+}
+
+func verifLemma_C15_diamond() {
+	a, b, c, d, x := vRel(1), vRel(2), vRel(3), vRel(4), vRel(9)
+	f := FeatureReferencesByID{a: []b6.Reference{b, c}, b: []b6.Reference{d}, c: []b6.Reference{d}}
+	m := make(map[b6.Reference]bool)
+	f.findReferences(a, &m)
+	verifrt.Assert(m[b6.Reference(b)] && m[b6.Reference(c)] && m[b6.Reference(d)], "transitive-referrers-found")
+	verifrt.Assert(!m[b6.Reference(a)] && !m[b6.Reference(x)], "nothing-else-found")
+}
